@@ -118,6 +118,34 @@ def closure_of(e):
     return None, None
 
 
+def subst_closure(e, caps, args=()):
+    """rewrite an expression of a closure body in terms of its creator: ('param', 1, (k, ..)) is capture k,
+    ('param', 2+i, ..) is the i-th call argument (if known)"""
+    memo = {}
+
+    def go(x):
+        if not isinstance(x, tuple):
+            return x
+        k = id(x)
+        if k in memo:
+            return memo[k]
+        r = None
+        if x and x[0] == "param" and len(x) >= 3:
+            if x[1] == 1 and x[2] and str(x[2][0]) in caps:
+                base = caps[str(x[2][0])]
+                rest = tuple(x[2][1:])
+                r = ("field", base, rest) if rest else base
+            elif x[1] >= 2 and x[1] - 2 < len(args):
+                base = args[x[1] - 2]
+                r = ("field", base, tuple(x[2])) if x[2] else base
+        if r is None:
+            r = tuple(go(y) for y in x)
+        memo[k] = r
+        return r
+
+    return go(e)
+
+
 def uncast(e):
     e = strip(e)
     while e[0] == "cast":
